@@ -8,7 +8,7 @@ fnmatch.fnmatchcase is shared.
 
 Failure keys. The class of the failing INPUT (computed by the oracle's own walk, pattern by pattern) is part of the key:
   inputs where a selected path has a key containing '/' or '~':  bounded:C13:{fragment,filter,chain}-escaped-key
-  inputs where a selected path goes through an array index:      bounded:C13:{fragment,filter,chain}-into-array
+  (pointer patterns select object members only, as in the property's quantifier; arrays are values at/below selected keys)
   all other inputs, one key per clause:
     bounded:C13:fragment-exception | fragment-selected | fragment-elsewhere | fragment-not-idempotent
     bounded:C13:filter-exception | filter-not-subdocument | filter-not-restriction
@@ -62,8 +62,8 @@ PATTERNS = [
     "/T/a|1/q~1r", "/T/*/q*",
     "/m~0n", "/m~0n/p", "/m*/p",
     "/*/p", "/*", "/[sL]", "/s",
-    "/L", "/L/0", "/L/*",
-]
+    "/L",
+]   # pointers select object members only (the property's domain); arrays occur as values at / below selected keys
 
 
 def enum_docs(node, leaf_vals, arrays):
@@ -133,15 +133,14 @@ def _children(node):
 class Info:
     def __init__(self):
         self.escaped = False
-        self.into_array = False
         self.matched = 0
 
-    def note(self, path, via_array):
+    def note(self, path):
         self.matched += 1
-        if any(("/" in k or "~" in k) for k in path if isinstance(k, str)):
+        # the property's domain: pointers select object members, never array elements
+        assert not any(isinstance(k, int) for k in path), "scope error: pattern selects an array element %r" % (path,)
+        if any(("/" in k or "~" in k) for k in path):
             self.escaped = True
-        if via_array:
-            self.into_array = True
 
     def classify(self, pats, docs):
         """every pattern on its own against every document involved (a selection nested inside another one counts)"""
@@ -150,12 +149,10 @@ class Info:
                 if d is None or d is MISSING:
                     continue
                 for path in sel(d, [pat]):
-                    self.note(path, any(isinstance(k, int) for k in path))
+                    self.note(path)
         return self
 
     def cls(self):
-        if self.into_array:
-            return "into-array"
         if self.escaped:
             return "escaped-key"
         return ""
@@ -166,10 +163,10 @@ class Info:
         return "bounded:C13:%s-%s" % (kind, c if c else clause)
 
 
-def merge(o, f, pats, info, path=(), via_array=False):
+def merge(o, f, pats, info, path=()):
     """the document the statement demands: selected parts from f (absent there -> removed), the rest from o"""
     if any(len(p) == 0 for p in pats):
-        info.note(path, via_array)
+        info.note(path)
         return copy.deepcopy(f)
     if not pats:
         return copy.deepcopy(o)
@@ -181,25 +178,13 @@ def merge(o, f, pats, info, path=(), via_array=False):
         res = {}
         for k in keys:
             sub = [p[1:] for p in pats if fnmatch.fnmatchcase(k, p[0])]
-            v = merge(od.get(k, MISSING), fd.get(k, MISSING), sub, info, path + (k,), via_array)
+            v = merge(od.get(k, MISSING), fd.get(k, MISSING), sub, info, path + (k,))
             if v is not MISSING:
                 res[k] = v
         if o is MISSING and not res:
             return MISSING
         return res
-    if isinstance(t, list):
-        ol = o if isinstance(o, list) else []
-        fl = f if isinstance(f, list) else []
-        res = []
-        for i in range(max(len(ol), len(fl))):
-            sub = [p[1:] for p in pats if fnmatch.fnmatchcase(str(i), p[0])]
-            v = merge(ol[i] if i < len(ol) else MISSING, fl[i] if i < len(fl) else MISSING, sub, info, path + (i,), True)
-            if v is not MISSING:
-                res.append(v)
-        if o is MISSING and not res:
-            return MISSING
-        return res
-    return copy.deepcopy(o)
+    return copy.deepcopy(o)     # scalar or array: a value, nothing below it is selected
 
 
 def sel(doc, pats, path=()):
@@ -217,28 +202,19 @@ def sel(doc, pats, path=()):
     return out
 
 
-def restrict(doc, pats, info, path=(), via_array=False):
+def restrict(doc, pats, info, path=()):
     """the smallest sub-document of doc containing everything selected"""
     if any(len(p) == 0 for p in pats):
-        info.note(path, via_array)
+        info.note(path)
         return copy.deepcopy(doc)
     if isinstance(doc, dict):
         res = {}
         for k, v in doc.items():
             sub = [p[1:] for p in pats if fnmatch.fnmatchcase(k, p[0])]
             if sub:
-                r = restrict(v, sub, info, path + (k,), via_array)
+                r = restrict(v, sub, info, path + (k,))
                 if r is not MISSING:
                     res[k] = r
-        return res if res else MISSING
-    if isinstance(doc, list):
-        res = []
-        for i, v in enumerate(doc):
-            sub = [p[1:] for p in pats if fnmatch.fnmatchcase(str(i), p[0])]
-            if sub:
-                r = restrict(v, sub, info, path + (i,), True)
-                if r is not MISSING:
-                    res.append(r)
         return res if res else MISSING
     return MISSING
 
@@ -289,12 +265,9 @@ def check_fragment(old, frag, acl):
     cnt = Info()
     exp = merge(old, frag, pats, cnt)
     info = Info().classify(pats, [old, frag])
-    # scope: the statement must be satisfiable (it is not for an array element selected in the middle of arrays of
-    # different length) -- the expectation itself has to fulfil r|acl == f|acl
+    # oracle self-check: the expectation itself fulfils r|acl == f|acl
     if not jeq(sel_values(exp, pats), sel_values(frag, pats)):
-        if not info.into_array:
-            raise AssertionError("oracle: unsatisfiable object-only case %r %r %r" % (old, frag, acl))
-        return None, False
+        raise AssertionError("oracle: unsatisfiable case %r %r %r" % (old, frag, acl))
     old0, frag0 = copy.deepcopy(old), copy.deepcopy(frag)
     nontrivial = cnt.matched > 0 and not jeq(exp, old0) and not jeq(exp, frag0)
     out = []
@@ -384,7 +357,7 @@ def check_chain(old_files, gens, safe):
         info.classify(pats, [exp[p], g["config"]])
         nxt = merge(exp[p], g["config"], pats, cnt)
         if not jeq(sel_values(nxt, pats), sel_values(g["config"], pats)):
-            return None, False      # unsatisfiable array case, see check_fragment
+            raise AssertionError("oracle: unsatisfiable chain step %r" % (g,))
         exp[p] = nxt
     old0 = copy.deepcopy(old_files)
     res = RunGeneratorResult()
@@ -433,14 +406,14 @@ def cases(tier, seed, part, nparts):
 
     # layer A: fragment, all shapes x all shapes x all pointer lists (strided)
     total = na * no * nn
-    for idx in _strided(total, 401 if quick else 53, part, nparts):
+    for idx in _strided(total, 1009 if quick else 53, part, nparts):
         ai, rest = divmod(idx, no * nn)
         oi, fi = divmod(rest, nn)
         yield "A%x" % idx, dict(kind="fragment", old=olds[oi], fragment=news[fi], acl=acls[ai])
 
     # layer B: fragment, random documents with all three scalar values
     rnd = random.Random(1000003 * seed + 17)
-    n = 64000 if quick else 400000
+    n = 40000 if quick else 400000
     for j in range(n):
         c = dict(kind="fragment", old=random_doc(rnd), fragment=random_doc(rnd), acl=rnd.choice(acls))
         if j % nparts == part:
@@ -529,12 +502,12 @@ def run(tier="quick", seed=0, part=0, nparts=1):
         rule="one schema {T:{'a|1':{p,'q/r'},'b*':{p}},'m~n':{p},L:[<=3],s}, scalars {1,'x',null}; %d pointer lists (1..2 of %d glob "
              "patterns, ordered). fragment: every 1/%d-th of (all 480 shapes)^2 x all lists + random full-valued docs; patch: "
              "shapes^2 (2 value variants, 1/%d), all arrays^2 x 2 surroundings, random; filter: shapes x lists (1/%d) + random; "
-             "chain: random 2..3 generators over 1..2 files, safe/unsafe. Cases whose statement is unsatisfiable (array element "
-             "selected inside arrays of different length) are skipped (%d in this part). non-trivial: fragment = something "
+             "chain: random 2..3 generators over 1..2 files, safe/unsafe. Patterns never select array elements (arrays are "
+             "values). non-trivial: fragment = something "
              "selected and result differs from both old and fragment; patch = old != new, both non-empty; filter = selected, "
              "proper sub-document; chain = >= 2 generators with >= 2 selections. distinct by enumeration index / content hash"
-             % (len(acl_lists()), len(PATTERNS), 401 if tier == "quick" else 53, 11 if tier == "quick" else 1,
-                5 if tier == "quick" else 1, skipped),
+             % (len(acl_lists()), len(PATTERNS), 1009 if tier == "quick" else 53, 11 if tier == "quick" else 1,
+                5 if tier == "quick" else 1),
         bound="objects 3 deep, arrays <= 3, 3 scalars, <= 2 glob patterns, <= 3 chained generators")
 
 
